@@ -31,45 +31,56 @@ structure Engine where
   missed : List Rec
   savedObs : List Rec
   savedMissed : List Rec
-  sensorChanges : Nat → Option Pointing
+  sensorChanges : Nat → Option (Nat × Pointing)     -- sensor ↦ (target whose job reported it, reported state)
 
 inductive JobResult
   | reward (row : Nat) (v : List Bool) (m : List (List Rat))
   | task (target : Nat) (obs : List Rec) (missed : List (Option Rec)) (info : List (Nat × Pointing))
 deriving Repr
 
-/-- repaired / unrepaired bookkeeping -/
-inductive Shape | repaired | unrepaired
+/-- bookkeeping variants: `repaired` = the current code (a sensor reported by several jobs of a step keeps the report
+of the highest target id); `lastWrite` = reports accumulate over the step but the last one processed wins;
+`unrepaired` = `sensor_changes` reset by every job -/
+inductive Shape | repaired | lastWrite | unrepaired
 deriving Repr, DecidableEq
 
 def upd {α} (m : Nat → Option α) (k : Nat) (v : α) : Nat → Option α := fun i => if i = k then some v else m i
+
+/-- `updateFromAsyncTaskExecution` for one sensor: an earlier report from a job with a higher target id is kept -/
+def updMax (m : Nat → Option (Nat × Pointing)) (k : Nat) (c : Nat × Pointing) : Nat → Option (Nat × Pointing) :=
+  fun i => if i = k then
+      (match m k with
+       | some old => if old.1 > c.1 then some old else some c
+       | none => some c)
+    else m i
 
 /-- `saveMissedObservations`: repaired = extend once with the truthy entries; unrepaired = extend
 with the whole list once per truthy entry -/
 def missedToAdd (sh : Shape) (missed : List (Option Rec)) : List Rec :=
   let valid := missed.filterMap id
   match sh with
-  | .repaired => valid
+  | .repaired | .lastWrite => valid
   | .unrepaired => (valid.map fun _ => valid).flatten
 
 /-- `processResults` of a finished job -/
 def merge (sh : Shape) (e : Engine) : JobResult → Engine
   | .reward row v m => { e with vis := upd e.vis row v, metrics := upd e.metrics row m }
-  | .task _ obs missed info =>
+  | .task t obs missed info =>
     let add := missedToAdd sh missed
-    let base := match sh with
-      | .repaired => e.sensorChanges
-      | .unrepaired => fun _ => none          -- `self.sensor_changes = {}` per job
+    let sc := match sh with
+      | .repaired => info.foldl (fun m p => updMax m p.1 (t, p.2)) e.sensorChanges
+      | .lastWrite => info.foldl (fun m p => upd m p.1 (t, p.2)) e.sensorChanges
+      | .unrepaired => info.foldl (fun m p => upd m p.1 (t, p.2)) (fun _ => none)   -- `self.sensor_changes = {}` per job
     { e with
       obs := e.obs ++ obs, savedObs := e.savedObs ++ obs,
       missed := e.missed ++ add, savedMissed := e.savedMissed ++ add,
-      sensorChanges := info.foldl (fun m p => upd m p.1 p.2) base }
+      sensorChanges := sc }
 
 /-- the resets at the top of `assess` (the saved lists are drained by the scenario when it writes
 the database, not here) -/
 def resetForStep (sh : Shape) (e : Engine) : Engine :=
   match sh with
-  | .repaired => { e with vis := fun _ => none, metrics := fun _ => none, obs := [], missed := [], sensorChanges := fun _ => none }
+  | .repaired | .lastWrite => { e with vis := fun _ => none, metrics := fun _ => none, obs := [], missed := [], sensorChanges := fun _ => none }
   | .unrepaired => { e with vis := fun _ => none, metrics := fun _ => none, obs := [] }
 
 /-- one step: reset, then the results in completion order -/
@@ -80,7 +91,7 @@ def runStep (sh : Shape) (e : Engine) (results : List JobResult) : Engine :=
 pointing state, the others keep theirs -/
 def applyChanges (sensors : Nat → Pointing) (e : Engine) : Nat → Pointing :=
   fun s => match e.sensorChanges s with
-    | some p => p
+    | some c => c.2
     | none => sensors s
 
 end RV.Engine
